@@ -7,6 +7,19 @@ VERIF = os.path.dirname(os.path.dirname(os.path.abspath(__file__)))
 ALL = [f"C{i:02d}" for i in range(1, 21)]
 
 CLAIMED = {
+    "C02": dict(
+        text="Coq theorem, for ALL reaction data (any number of outer-projection groups, topologies, chains, nodes, any spins/LS/couplings/"
+             "prefactors/lineshapes) and ALL numerical points and ANY interpretation of WignerD and CG: the expected model expression is well "
+             "defined and denotes the helicity formula (incoherent sum over outer projections of |coherent sum over chains of prefactor x "
+             "coefficient x prod over nodes of CG x CG x conj-D(J,m,l1-l2;phi,theta) x lineshape|^2), and likewise each component/amplitude/"
+             "chain term. The spec is tied to the code by a correspondence run: it is evaluated inside Coq on data extracted independently from "
+             "the qrules transitions (own child ordering, own symmetrisation of identical particles, own grouping) and compared with "
+             "model.expression, every amplitude and every component (SymPy ==) over corpus x configurations; an independent numeric evaluation "
+             "(exp(i m phi) d(theta), CG on numbers) runs as failing-input search. Known finding: identical particles with different helicities.",
+        note="Coq kernel; stdlib Reals axioms via Coquelicot C; correspondence is differential (sampled reactions/configurations); symbol names and "
+             "lineshape expressions are taken from ampform (C03/C07/C13 cover them); bridge/coqio.py parser; unaligned models only.",
+        technique="Coq proof (structural induction) about a Gallina reference formula + correspondence run against the implementation + independent numeric evaluator",
+        design="6/C02", category="proof"),
     "C01": dict(
         text="Coq theorems (closed under the global context) for EVERY model that passes the executable closure checker: each free symbol "
              "of the full intensity expression is a parameter xor a kinematic variable, every amplitude symbol the intensity sums over has a "
